@@ -44,7 +44,7 @@ ASSUMPTIONS = [
 ]
 MIN_OBS = {"steps_executed": 5000, "native_double_executions": 300, "lookalikes_built": 300, "isolation_replays": 1000, "fingerprint_sweeps": 5000, "rebuild_comparisons": 300, "double_compilations": 300, "double_executions": 300, "hash_checks": 3000}
 CASE_TIMEOUT = 180
-STEP_KINDS = ["factory", "factory", "factory", "binary", "compile", "execute", "execute", "execute_native", "process", "diagnose", "lookalike"]
+STEP_KINDS = ["factory", "factory", "factory", "factory", "binary", "binary", "compile", "execute", "execute", "execute_native", "process", "diagnose", "lookalike"]
 
 
 def budget(tier):
@@ -167,7 +167,16 @@ def run_case(case):
                         if shared_nonkey:
                             continue
                         r_route = rng.random()
-                        if r_route < 0.12 and ent["cols"]:
+                        if rng.random() < 0.15 and ent["cols"] and ent["eng"] == other["eng"] == "sql":
+                            # directed: an operand ending in a calculation (no projection after it)
+                            # joined to an operand that ends in a bare projection
+                            fx = g.unary((ent["prog"], ent["cols"], ent["eng"]), "calc")
+                            keep = sorted(x for x in other["cols"] if x not in "xyz" and rng.random() < 0.7)
+                            if fx is None or (fx[1] - ent["cols"]) & other["cols"] or {x for x in fx[1] & set(keep) if x in "xyz"}:
+                                continue
+                            pr = ["proj", other["prog"], keep, None]
+                            prog = ["join", fx[0], pr, None, {"bt": True, "tr": False}] if rng.random() < 0.5 else ["join", pr, fx[0], None, {"bt": True, "tr": False}]
+                        elif r_route < 0.12 and ent["cols"]:
                             # directed: the join has to backtrack through a projection and a transfer
                             # into the engine of a fixed operand that ends in a calculation
                             fx = g.unary((other["prog"], other["cols"], other["eng"]), "calc")
